@@ -139,6 +139,8 @@ def commitFile (ctx : Ctx κ) (strat : Strat) (skip : Bool) (n : Option (Node κ
           match strat with
           | .link => .ok (.link (.obj d), d, s')
           | .copy => .ok (.file c, d, s')
+      -- a link to an existing object of this cache is committed already: record that object's checksum
+      | .link (.obj d) => if !skip && s.has d then .ok (nd, d, s) else .error .notRegular
       | _ => .error .notRegular
 
 /-- the old manifest `commitDirArtifact` starts from -/
